@@ -31,6 +31,7 @@ def add_leg(pid, scn, q_runs, q_budget, t_runs, t_budget):
 
 # directed, seeded witness scenarios that stay part of the checks
 add_leg('C18', 'D_deadline_rearm', 1500, 30, 60000, 300)
+add_leg('C15', 'C15b', 4000, 60, 200000, 900)
 
 SIM_NOTE = ("Trusted base: the instrumenter and simulator runtime under /verif (scheduling points at every lock/cond/channel/select/goroutine start; "
             "seeded select and map-iteration order), Go 1.26.8 testing/synctest, the harness' own decoder and reference models. "
